@@ -29,12 +29,14 @@ Theorem c12_run_reachable : forall sched s, reachable s -> reachable (run s sche
 Proof. exact run_reachable. Qed.
 Print Assumptions c12_run_reachable.
 
-(* the lock outlives a provider round trip only if the provider answers within it: the lock
-   duration and retry constants are regenerated from the source *)
+(* "provided the provider answers within the refresh lock's duration": a request waiting for the lock
+   polls for at least as long as the lock can be held, so it never gives up on a refresh that
+   completes inside the lock's duration (constants regenerated from the source; the driver runs a
+   provider that answers just inside the regenerated lock duration) *)
 Theorem c12_lock_constants :
-  refresh_lock_duration_ns = 2000000000%Z /\ refresh_obtain_timeout_ns = 5000000000%Z /\
-  refresh_retry_period_ns = 10000000%Z.
-Proof. repeat split. Qed.
+  (0 < refresh_retry_period_ns < refresh_lock_duration_ns)%Z /\
+  (refresh_lock_duration_ns <= refresh_obtain_timeout_ns)%Z.
+Proof. unfold refresh_retry_period_ns, refresh_lock_duration_ns, refresh_obtain_timeout_ns. lia. Qed.
 Print Assumptions c12_lock_constants.
 
 (* one request: a stale session is used only after a successful refresh or a successful
